@@ -40,6 +40,8 @@ pub fn sem_of_base(b: &Base) -> Sem {
         Base::F64(bits) => Sem::Float(*bits),
         Base::Str(s) | Base::StrRef(s) => Sem::Bytes(s.as_bytes().to_vec()),
         Base::Vec(v) | Base::Slice(v) => Sem::Bytes(v.clone()),
+        Base::BigBytes { seed, len } => Sem::Bytes(big_bytes(*seed, *len)),
+        Base::BigStr { seed, len } => Sem::Bytes(big_str(*seed, *len).into_bytes()),
         Base::Date(y, m, d) => Sem::Date(*y, *m, *d),
         Base::DateTime(y, m, d, h, mi, s, us) => Sem::DateTime(*y, *m, *d, *h, *mi, *s, *us),
         Base::Dur(secs, us) => Sem::Time(*secs as u128 * 1_000_000 + *us as u128),
